@@ -345,7 +345,14 @@ static void check_mscohere(int nfft, int wl, int wk, vh::Rng& r) {
             y = gauss_real(r, N);
         }
         vh::begin_case("mscohere", "%s y=%s", base.c_str(), kn);
-        const arr_real c = dl::mscohere(x, y, win, ov, nfft);
+        arr_real c;
+        {
+            std::string what;
+            if (try_call([&] { c = dl::mscohere(x, y, win, ov, nfft); }, &what) != Outcome::Returned) {
+                vh::violation("C13/mscohere/threw", base + vh::fmt(" y=%s: threw on valid arguments: %s", kn, what.c_str()));
+                continue;
+            }
+        }
         vh::Hasher hh;
         hh.s(base).i(kind).u64(hash_arr(x));
         vh::count(hh.get(), true);
